@@ -759,9 +759,15 @@ func (n *Node) ResetGlobals() {
 // StoreDigest is a digest of everything persistent (both stores) plus the
 // in-memory pointers the property speaks about (best block, state root, DPoS status, orphans).
 func (n *Node) StoreDigest() string {
-	h := sha256.New()
+	return strings.Join(n.StoreDigestParts(), "/")
+}
+
+// StoreDigestParts returns the digest by component: chain store, state store, pointers.
+func (n *Node) StoreDigestParts() []string {
+	var parts []string
 	st := n.SaveStores()
 	for _, m := range []map[string][]byte{st.Chain, st.State} {
+		h := sha256.New()
 		ks := make([]string, 0, len(m))
 		for k := range m {
 			ks = append(ks, k)
@@ -771,14 +777,14 @@ func (n *Node) StoreDigest() string {
 			fmt.Fprintf(h, "%d:%s=%d:", len(k), k, len(m[k]))
 			h.Write(m[k])
 		}
-		h.Write([]byte("|"))
+		parts = append(parts, fmt.Sprintf("%x", h.Sum(nil)[:8]))
 	}
 	// of the consensus status only the irreversible block is compared: the in-memory
 	// confirm list / proposed-LIB map is rebuilt from the blocks after a refused block
 	// (Status.Update in rollback mode) and need not be representation-identical
 	lh, ln := n.DPoS.VerifLIB()
-	fmt.Fprintf(h, "best=%s root=%x orph=%v lib=%d/%s", n.Best().ID(), n.CS.SDB().GetRoot(), n.CS.VerifOrphans(), ln, lh)
-	return fmt.Sprintf("%x", h.Sum(nil)[:16])
+	parts = append(parts, fmt.Sprintf("best=%s root=%x orph=%v lib=%d/%s", n.Best().ID()[:8], n.CS.SDB().GetRoot()[:4], n.CS.VerifOrphans(), ln, lh))
+	return parts
 }
 
 // JSON marshals v (panics on error).
